@@ -358,7 +358,22 @@ def validate_histories(ck, hists_by_cap):
     """code->spec: TLC (LRULin.tla) decides linearizability of every recorded history."""
     total = 0
     for cap, hs in sorted(hists_by_cap.items()):
-        keys = list(hs.keys())
+        keys = []
+        for k in hs.keys():
+            # a result outside the specification's return alphabet (an exception other than KeyError escaping an
+            # operation, or the final projection raising) cannot be a step of LRULin.tla: rejected here, because
+            # TLC cannot even fingerprint such a record next to well-formed ones
+            h = json.loads(k)
+            alien = [o for o in h["ops"] if o["r"][0] == "raise"] or (h["final"] and h["final"][0] == "raise")
+            if alien:
+                total += 1
+                ck.violation({"kind": "conc", "history": h, "schedule": hs[k]},
+                             f"concurrent LRUCache history is not linearizable / raised: cap={h['cap']} init={h['init']} "
+                             f"ops={[(o['t'], o['op'], o['r']) for o in h['ops']]} final={h['final']}",
+                             {"kind": "lru-nonlinearizable", "ops": sorted({o["op"][0] for o in h["ops"]}),
+                              "raised": sorted({o["r"][1] for o in h["ops"] if o["r"][0] == "raise"})})
+            else:
+                keys.append(k)
         for batch_no, batch in enumerate(core.chunks(keys, 4000)):
             d = core.workdir("C26", f"lin{cap}_{batch_no}")
             tf = d / "hist.json"
